@@ -36,11 +36,42 @@ type RouteSpec struct {
 	QueryExist  []string    `json:"query_exists,omitempty"`
 	RemoteIPs   []string    `json:"remote_ips,omitempty"`
 	Named       bool        `json:"named,omitempty"` // print the match block as a named matcher + reference
+	// Ref > 0: the route also references the case's shared named matcher Shared[Ref-1]; its criteria
+	// (AND-lists only) hold in addition to the route's own
+	Ref int `json:"ref,omitempty"`
+}
+
+// SharedMatch is a named matcher several routes may reference. It carries only the criteria kinds
+// whose combination with a route's own criteria is unambiguous (all of them must hold), under names
+// no route uses inline.
+type SharedMatch struct {
+	Headers     [][2]string `json:"headers,omitempty"`
+	HeaderExist []string    `json:"header_exists,omitempty"`
+	Query       [][2]string `json:"query,omitempty"`
+	QueryExist  []string    `json:"query_exists,omitempty"`
 }
 
 type C10Case struct {
-	Routes []RouteSpec `json:"routes"`
-	Reqs   []FReq      `json:"reqs"`
+	Routes []RouteSpec   `json:"routes"`
+	Shared []SharedMatch `json:"shared,omitempty"`
+	Reqs   []FReq        `json:"reqs"`
+}
+
+// effective returns the routes with the criteria of their referenced shared matcher folded in:
+// what the oracle and the request generator work with.
+func (c C10Case) effective() []RouteSpec {
+	out := make([]RouteSpec, len(c.Routes))
+	for i, r := range c.Routes {
+		if r.Ref > 0 && r.Ref <= len(c.Shared) && r.inbound() {
+			sm := c.Shared[r.Ref-1]
+			r.Headers = append(append([][2]string(nil), r.Headers...), sm.Headers...)
+			r.HeaderExist = append(append([]string(nil), r.HeaderExist...), sm.HeaderExist...)
+			r.Query = append(append([][2]string(nil), r.Query...), sm.Query...)
+			r.QueryExist = append(append([]string(nil), r.QueryExist...), sm.QueryExist...)
+		}
+		out[i] = r
+	}
+	return out
 }
 
 func (r RouteSpec) inbound() bool {
@@ -61,13 +92,29 @@ func q(s string) string {
 	return `"` + strings.ReplaceAll(strings.ReplaceAll(s, `\`, `\\`), `"`, `\"`) + `"`
 }
 
-func c10Text(routes []RouteSpec) string {
+func c10Text(routes []RouteSpec, shared ...SharedMatch) string {
 	var b strings.Builder
 	b.WriteString("ingress { listen 127.0.0.1:0 }\n")
 	b.WriteString("pull_api {\n  listen localhost:0\n  auth token raw:pulltoken\n}\n")
 	b.WriteString("admin_api { listen 0.0.0.0:0 }\n")
 	var named strings.Builder
 	var body strings.Builder
+	for k, sm := range shared {
+		fmt.Fprintf(&named, "@s%d {\n", k+1)
+		for _, x := range sm.Headers {
+			fmt.Fprintf(&named, "  header %s %s\n", q(x[0]), q(x[1]))
+		}
+		for _, x := range sm.HeaderExist {
+			fmt.Fprintf(&named, "  header_exists %s\n", q(x))
+		}
+		for _, x := range sm.Query {
+			fmt.Fprintf(&named, "  query %s %s\n", q(x[0]), q(x[1]))
+		}
+		for _, x := range sm.QueryExist {
+			fmt.Fprintf(&named, "  query_exists %s\n", q(x))
+		}
+		named.WriteString("}\n")
+	}
 	for i, r := range routes {
 		matchLines := func(ind string) string {
 			var m strings.Builder
@@ -103,6 +150,9 @@ func c10Text(routes []RouteSpec) string {
 			} else {
 				fmt.Fprintf(&rb, "  match {\n%s  }\n", matchLines("    "))
 			}
+		}
+		if r.Ref > 0 && r.Ref <= len(shared) && r.inbound() {
+			fmt.Fprintf(&rb, "  match @s%d\n", r.Ref)
 		}
 		switch r.Mode {
 		case "pull":
@@ -368,7 +418,26 @@ var (
 	c10ReqRemotes = []string{"203.0.113.7:5555", "203.0.113.8:1", "203.0.114.7:5555", "10.1.2.3:80", "[2001:db8::5]:443", "[::1]:9", "[::ffff:203.0.113.7]:80", "203.0.113.7", "garbage", "192.0.2.1:1", "192.0.2.2:1"}
 )
 
-func genRouteSpec(t *rapid.T, usedPaths map[string]bool) (RouteSpec, bool) {
+func genSharedMatch(t *rapid.T, k int) SharedMatch {
+	var sm SharedMatch
+	// list sizes around the growth steps of an appended slice (3 of 4, 5-7 of 8)
+	sizes := []int{0, 0, 1, 2, 3, 3, 4, 5, 6, 7}
+	for i, n := 0, rapid.SampledFrom(sizes).Draw(t, "sm_headers"); i < n; i++ {
+		sm.Headers = append(sm.Headers, [2]string{fmt.Sprintf("X-S%d-%d", k, i), fmt.Sprintf("v%d", i)})
+	}
+	for i, n := 0, rapid.SampledFrom(sizes).Draw(t, "sm_hexists"); i < n; i++ {
+		sm.HeaderExist = append(sm.HeaderExist, fmt.Sprintf("X-SE%d-%d", k, i))
+	}
+	for i, n := 0, rapid.SampledFrom(sizes).Draw(t, "sm_query"); i < n; i++ {
+		sm.Query = append(sm.Query, [2]string{fmt.Sprintf("s%d_%d", k, i), fmt.Sprintf("w%d", i)})
+	}
+	for i, n := 0, rapid.SampledFrom(sizes).Draw(t, "sm_qexists"); i < n; i++ {
+		sm.QueryExist = append(sm.QueryExist, fmt.Sprintf("se%d_%d", k, i))
+	}
+	return sm
+}
+
+func genRouteSpec(t *rapid.T, usedPaths map[string]bool, nshared ...int) (RouteSpec, bool) {
 	var free []string
 	for _, p := range c10Paths {
 		if !usedPaths[p] {
@@ -392,22 +461,27 @@ func genRouteSpec(t *rapid.T, usedPaths map[string]bool) (RouteSpec, bool) {
 	if !r.inbound() {
 		return r, true
 	}
+	bias := 0
+	if len(nshared) > 0 && nshared[0] > 0 && rapid.Bool().Draw(t, "has_ref") {
+		r.Ref = rapid.IntRange(1, nshared[0]).Draw(t, "ref")
+		bias = 2 // routes sharing a matcher mostly add own criteria of the same kinds
+	}
 	if rapid.IntRange(0, 2).Draw(t, "has_methods") == 0 {
 		r.Methods = uniq(rapid.SliceOfN(rapid.SampledFrom(c10Methods), 1, 2).Draw(t, "methods"))
 	}
 	if rapid.IntRange(0, 2).Draw(t, "has_hosts") == 0 {
 		r.Hosts = uniq(rapid.SliceOfN(rapid.SampledFrom(c10Hosts), 1, 2).Draw(t, "hosts"))
 	}
-	if rapid.IntRange(0, 3).Draw(t, "has_hdr") == 0 {
+	if rapid.IntRange(0, 3).Draw(t, "has_hdr") <= bias {
 		r.Headers = [][2]string{{rapid.SampledFrom(c10HdrName).Draw(t, "hn"), rapid.SampledFrom(c10HdrVal).Draw(t, "hv")}}
 	}
-	if rapid.IntRange(0, 4).Draw(t, "has_hdrx") == 0 {
+	if rapid.IntRange(0, 4).Draw(t, "has_hdrx") <= bias {
 		r.HeaderExist = []string{rapid.SampledFrom(c10HdrName).Draw(t, "hxn")}
 	}
-	if rapid.IntRange(0, 3).Draw(t, "has_q") == 0 {
+	if rapid.IntRange(0, 3).Draw(t, "has_q") <= bias {
 		r.Query = [][2]string{{rapid.SampledFrom(c10QName).Draw(t, "qn"), rapid.SampledFrom(c10QVal).Draw(t, "qv")}}
 	}
-	if rapid.IntRange(0, 4).Draw(t, "has_qx") == 0 {
+	if rapid.IntRange(0, 4).Draw(t, "has_qx") <= bias {
 		r.QueryExist = []string{rapid.SampledFrom(c10QName).Draw(t, "qxn")}
 	}
 	if rapid.IntRange(0, 3).Draw(t, "has_ip") == 0 {
@@ -514,15 +588,18 @@ func genC10Case() *rapid.Generator[C10Case] {
 	return rapid.Custom(func(t *rapid.T) C10Case {
 		var c C10Case
 		used := map[string]bool{}
+		for k, ns := 0, rapid.SampledFrom([]int{0, 0, 1, 1, 2}).Draw(t, "nshared"); k < ns; k++ {
+			c.Shared = append(c.Shared, genSharedMatch(t, k+1))
+		}
 		n := rapid.IntRange(1, 6).Draw(t, "nroutes")
 		for i := 0; i < n; i++ {
-			r, ok := genRouteSpec(t, used)
+			r, ok := genRouteSpec(t, used, len(c.Shared))
 			if !ok {
 				break
 			}
 			c.Routes = append(c.Routes, r)
 		}
-		routes := c.Routes
+		routes := c.effective()
 		reqGen := rapid.Custom(func(t *rapid.T) FReq { return genC10Req(t, routes) })
 		c.Reqs = rapid.SliceOfN(reqGen, 1, 8).Draw(t, "reqs")
 		return c
@@ -550,7 +627,8 @@ func (o *fOutcome) labels() []string {
 
 func runC10(c C10Case, tolerate bool) *fOutcome {
 	out := newFOutcome()
-	src := c10Text(c.Routes)
+	src := c10Text(c.Routes, c.Shared...)
+	eff := c.effective()
 	w, err := newFrontWorld(src, worldOpts{})
 	if err != nil {
 		// a generated config the compiler refuses is a generator problem unless the refusal is
@@ -560,6 +638,18 @@ func runC10(c C10Case, tolerate bool) *fOutcome {
 		return out
 	}
 	defer w.close()
+	refs := map[int]int{}
+	for _, r := range c.Routes {
+		if r.Ref > 0 && r.Ref <= len(c.Shared) && r.inbound() && len(r.Headers)+len(r.HeaderExist)+len(r.Query)+len(r.QueryExist) > 0 {
+			refs[r.Ref]++
+		}
+	}
+	for _, n := range refs {
+		out.Labels["shared-matcher-referenced"] = true
+		if n >= 2 {
+			out.Labels["shared-matcher-two-routes-own-criteria"] = true
+		}
+	}
 	readings := c10AllReadings()
 	for i, req := range c.Reqs {
 		before, err := w.dump()
@@ -574,10 +664,10 @@ func runC10(c C10Case, tolerate bool) *fOutcome {
 			return out
 		}
 		added := newMsgs(before, after)
-		exp := c10Expect(c.Routes, req, readings[0])
+		exp := c10Expect(eff, req, readings[0])
 		agree := true
 		for _, rd := range readings[1:] {
-			if e := c10Expect(c.Routes, req, rd); e != exp {
+			if e := c10Expect(eff, req, rd); e != exp {
 				agree = false
 				break
 			}
@@ -628,7 +718,7 @@ func runC10(c C10Case, tolerate bool) *fOutcome {
 		var f *verifkit.Failure
 		switch {
 		case rec.Code != exp.status:
-			f = mk("status", "request %s: status %d, expected %d (route %q) for routes %s", reqStr(req), rec.Code, exp.status, exp.route, routesStr(c.Routes))
+			f = mk("status", "request %s: status %d, expected %d (route %q) for routes %s", reqStr(req), rec.Code, exp.status, exp.route, routesStr(eff))
 		case exp.status == 202:
 			wantTargets := []string{}
 			for ri, r := range c.Routes {
